@@ -134,6 +134,36 @@ def sliceStep (l : List α) (a b : Nat) (ys : List α) : SOut α :=
   let b' := max a' (min b l.length)
   ⟨l.take a' ++ ys ++ l.drop b', removedNotifs ((l.drop a').take (b' - a')) ++ addedNotifs ys, false⟩
 
+/-! ### extended slices (`l[a:b:k]`, `k ≥ 2`) and `l *= n` -/
+
+/-- the positions `a, a+k, a+2k, … < b` of an extended slice -/
+def inExt (a b k : Nat) (i : Nat) : Bool := decide (a ≤ i) && decide (i < b) && ((i - a) % k == 0)
+
+/-- the elements at the chosen positions, and the others (positions counted from `i`) -/
+def pickAt (p : Nat → Bool) : Nat → List α → List α × List α
+  | _, [] => ([], [])
+  | i, x :: xs => if p i then (x :: (pickAt p (i + 1) xs).1, (pickAt p (i + 1) xs).2)
+                  else ((pickAt p (i + 1) xs).1, x :: (pickAt p (i + 1) xs).2)
+
+/-- the chosen positions take the successive elements of `ys` -/
+def replaceAt (p : Nat → Bool) : Nat → List α → List α → List α
+  | _, [], _ => []
+  | i, x :: xs, ys =>
+    if p i then
+      match ys with
+      | y :: ys' => y :: replaceAt p (i + 1) xs ys'
+      | [] => x :: replaceAt p (i + 1) xs []
+    else x :: replaceAt p (i + 1) xs ys
+
+/-- `del l[a:b:k]`: `EList.__delitem__` pops the positions from the highest one down, one REMOVE each -/
+def delExtStep (l : List α) (a b k : Nat) : SOut α :=
+  ⟨(pickAt (inExt a b k) 0 l).2, (pickAt (inExt a b k) 0 l).1.reverse.map (fun x => ⟨.remove, [x], []⟩), false⟩
+
+/-- `l[a:b:k] = ys`: refused (ValueError, nothing reported) unless as many come in as leave -/
+def setExtStep (l : List α) (a b k : Nat) (ys : List α) : SOut α :=
+  if ys.length ≠ (pickAt (inExt a b k) 0 l).1.length then SOut.err l else
+  ⟨replaceAt (inExt a b k) 0 l ys, removedNotifs (pickAt (inExt a b k) 0 l).1 ++ addedNotifs ys, false⟩
+
 def SlotKind.unique : SlotKind → Bool | .set => true | _ => false
 
 /-- run a history on a slot, collecting every notification -/
@@ -141,5 +171,9 @@ def slotRun (k : SlotKind) (ops : List (SOp α)) (l : List α) : List α × List
   ops.foldl (fun (acc : List α × List (Notif α)) op =>
     let o := slotStep k acc.1 op
     (o.items, acc.2 ++ o.notifs)) (l, [])
+
+/-- `l *= n` on a list-like slot: `clear()` for `n ≤ 0`, else `extend` with `n - 1` more copies -/
+def imulOps (l : List α) (n : Int) : List (SOp α) :=
+  if n ≤ 0 then [.clear] else [.extend ((List.replicate (n.toNat - 1) l).flatten)]
 
 end Py
